@@ -13,6 +13,29 @@ CLAIMED = {
             "Decides where names end up for every table entry, not the values carried.",
             "Trusted: dict/str builtin semantics; model parameter tables are literals. Not decided: numeric "
             "hand conversions and the 1e6 SLD rescale.", "C20"),
+    "C08": ("AST data-dependence + affine layout algebra on mixture.py",
+            "Static: the init/accumulate decision of MixtureKernel.Iq may not read accumulated values; _MixtureParts slice "
+            "arithmetic equals make_mixture_info's append order as linear forms (all part counts, both operators); "
+            "per-part (scale_k|1, 0); return formula; parser precedence.",
+            "Trusted: numpy slicing. Not decided: numeric equality with separately evaluated parts.", "C08"),
+    "C11": ("interprocedural parameter-mutation effect analysis (reaching-definition alias tracking on a CFG)",
+            "Static: no public evaluation entry point mutates a caller-owned dict/array directly, through a view or in "
+            "a resolved callee; no view of the reused result buffer is returned; shared scratch vector overwritten "
+            "before use; who-may-write table for module state; library-handle typestate.",
+            "Trusted: numpy view/copy semantics; unresolved callees are listed as notes. Not decided: bit-identity "
+            "of results across call histories.", "C11"),
+    "C15": ("regex automata (re._parser -> NFA/DFA, language equality against C99 grammar) + dispatch table agreement",
+            "Static: exact language of FLOAT_RE and its zero-width context, extent stability, keyword regex structure "
+            "and consumed-context overlap, tgmath list and integer grammar, replacement templates, dtype dispatch "
+            "tables (convert_type, ctypes, numpy, dll name, FLOAT_SIZE conditionals, parse_dtype).",
+            "Trusted: re.sub left-to-right semantics; reference grammars from C99 6.4.4.2. Not decided: that converted "
+            "kernels build and agree numerically.", "C15"),
+    "C18": ("typestate/def-use analysis of the cache path on make_dll's CFG",
+            "Static: the cache path is only tested, logged, derived from, renamed onto and returned; the compiler "
+            "writes a distinct temporary in the cache directory; the rename is dominated by the raising compile call; "
+            "the loader opens only the published path. Decides the shape that makes every interleaving and kill point "
+            "safe.",
+            "Trusted: rename(2) atomicity in one directory; compiler writes only its -o argument.", "C18"),
 }
 
 NOT_APPLICABLE = {
